@@ -246,10 +246,11 @@ def clusterOracleStep (o : ClusterOr) (toks : List String) : ClusterOr × String
       | [] => none
       | b :: rest => if parName b == prev then chainOk b rest else some s!"{b} (parent {parName b}) committed after {prev}"
     match chainOk (oldLog.getLast?.getD "G") newCommits with
-    | some bad => (o2, if void then "pass" else s!"fail commit-not-a-chain replica {i}: {bad}")
+    -- Fast-HotStuff failures carry their own signatures (`fhs-…`): a recorded known finding (DESIGN §6)
+    | some bad => (o2, if void then "pass" else s!"fail {if isLockRules then "" else "fhs-"}commit-not-a-chain replica {i}: {bad}")
     | none =>
       match o2.logs.find? (fun p => p.1 != i && !(isPrefixStr p.2 log || isPrefixStr log p.2)) with
-      | some p => (o2, if void then "pass" else s!"fail ledgers-diverge replica {i} committed {log} but replica {p.1} committed {p.2}")
+      | some p => (o2, if void then "pass" else s!"fail {if isLockRules then "" else "fhs-"}ledgers-diverge replica {i} committed {log} but replica {p.1} committed {p.2}")
       | none => (o2, "pass")
   | _ => (o, "pass")
 
